@@ -96,6 +96,9 @@ pub enum AckKind {
 pub enum IdSpec {
     /// An identifier not currently in use by an unreleased inbound QoS 2 message.
     Fresh,
+    /// The lowest identifier whose previous QoS 2 exchange (if any) the client has completed
+    /// with PUBCOMP: what a broker that reuses identifiers eagerly would pick.
+    LowestFree,
     Raw(u16),
     /// Same identifier as inbound PUBLISH number `n` (order of injection).
     SameAs(usize),
